@@ -68,7 +68,7 @@ def parse(doc: Any, limit: int = 20, **cf: Any):
     except Timeout:
         return None, "HANG"
     except Exception:  # noqa: BLE001
-        return None, traceback.format_exc(limit=6)
+        return None, traceback.format_exc(limit=-8)
 
 
 def diag_list(errors) -> list[dict]:
@@ -97,7 +97,7 @@ def generate(doc: Any, out: Path | str, limit: int = 60, custom_template_path=No
     except Timeout:
         return {"diags": [], "exc": "HANG", "rejected": False}
     except Exception:  # noqa: BLE001
-        return {"diags": [], "exc": traceback.format_exc(limit=8), "rejected": False}
+        return {"diags": [], "exc": traceback.format_exc(limit=-10), "rejected": False}
 
 
 def snapshot(root: Path | str, content: bool = False) -> dict[str, Any]:
